@@ -11,7 +11,7 @@ GUARD_STEPS = 250
 RULE = ('each run = one declared pair (weaker L\', stronger L) read from Meta.extension_of through the registry (every pair gets '
         'a floor share; 20% of runs use a pair from the transitive closure) and one argument in the vocabulary of L\' (no modal '
         'operator unless L\' is modal, no quantifier unless L\' is quantified; 40% mutated library examples, biased to arguments '
-        'L\' proves; 12% deep unary modal chains, 15% quantifier-witness-at-another-world arguments for modal quantified L\'), proved in L\' and in L under 2 independent seeded configurations each. Every 6th run is a slice of a systematic sweep of all unary modal chains (length <= 6, thorough <= 7) x 3 kernels x 2 conclusions on D -> T, the one declared pair whose rule sets are not nested. If any run in L\' is valid, no run '
+        'L\' proves; 12% deep unary modal chains, 20% modal contradictions under modal prefixes / disjunctions next to their own sub-sentences, 15% quantifier-witness-at-another-world arguments for modal quantified L\'), proved in L\' and in L under 2 independent seeded configurations each. Every 6th run is a slice of a systematic sweep of all unary modal chains (length <= 6, thorough <= 7) x 3 kernels x 2 conclusions on D -> T, the one declared pair whose rule sets are not nested. If any run in L\' is valid, no run '
         'in L may be refuted by a limit-free open branch, and on the propositional fragment every verdict in L must be valid. '
         'distinct_nontrivial = distinct (pair, argument) with a valid verdict in the weaker logic')
 ASSUMPTIONS = [
@@ -72,6 +72,8 @@ def make_case(ctx):
     r = rng.random()
     if wsem.modal and r < 0.12:
         return (weaker, stronger) + proofwl.deep_modal_template(rng)
+    if wsem.modal and r > 0.8:
+        return (weaker, stronger) + proofwl.modal_contradiction_template(rng)
     if wsem.modal and wsem.quantified and r < 0.27:
         return (weaker, stronger) + proofwl.witness_worlds_template(rng)
     prems, conc = proofwl.gen_case(rng, weaker, p_example=0.4)
